@@ -128,6 +128,26 @@ regenerated from the source on every run. -/
 theorem friendlyID_matches_source_table :
     Xp.Gen.friendlyProbes.all (fun t => friendlyID t.1 t.2.1 == t.2.2) = true := by decide
 
+/-- the state of harness/main/c14.go `c14SkeletonScn`: one call of every kind is issued -/
+def skelStore : Store :=
+  { pkg := some { name := "p", uid := "u-p",
+                  spec := { source := "xpkg.io/org/pkg:v3", limit := some 1, policy := .unset, pull := .unset, paused := false, labels := [] },
+                  status := { curRev := "", curId := "", pausedCond := false } }
+    revs := [ { name := "p-1111111111aa", parent := some "p", number := 1, state := .inactive, ctrl := some "u-p", image := "img", labels := [], fin := false, deleting := false },
+              { name := "p-2222222222bb", parent := some "p", number := 2, state := .active, ctrl := some "u-p", image := "img", labels := [], fin := false, deleting := false },
+              { name := "p-3333333333cc", parent := some "p", number := 3, state := .inactive, ctrl := some "u-p", image := "img", labels := [("a", "1")], fin := false, deleting := false } ] }
+
+def skelEnv : Env := { head := fun _ => .digest "3333333333cc2222222222222222222222222222222222222222222222222222", parseOk := fun _ => true }
+
+set_option maxRecDepth 100000 in
+/-- The model issues exactly the API calls, in the order, that `Reconciler.Reconcile` of the
+current tree issues on the skeleton scenario (regenerated by running the real code on every
+check): Get package, List revisions, List ImageConfigs, {Get, Patch} to deactivate, Delete the
+collected revision, {Get, Patch} the current revision, Update (labels), Status().Update. -/
+theorem call_skeleton_matches_source :
+    (applied sem Plan.allOk 0 (pkgReconcile skelEnv "p") skelStore).map Req.tag = Xp.Gen.pkgReconcileSkeleton := by
+  decide
+
 /-! ### history garbage collection -/
 
 /-- History GC deletes only the oldest non-current revision: under every fault plan, any
